@@ -12,18 +12,20 @@ Clauses (stable violation ids)
                                         db.param-empty-to-none db.param-unset-after-load db.material
                                         db.temperature db.dimension db.dimension-link db.numdens db.volume db.mass
                                         db.write-error db.load-error
-  load the same snapshot twice          db.double-load
-  save a loaded reactor, load again     db.resave
+  load the same snapshot twice          db.double-load.<clause>   (clause = locator, param-differs, child-order, ...)
+  save a loaded reactor, load again     db.resave.<clause>  db.resave.error
+  edge-value probes (one assignment)    the ids above, and db.write-error.<probe> / db.load-error.<probe>
   kernels ([P] rows of DESIGN.md run as executable checks)
     _packLocationsV3/_unpackLocationsV2 loc.pack-unpack loc.pack-length loc.pack-complete-indices
     Layout._createLayout counters       layout.preorder layout.index-in-data layout.num-children layout.grid-index
-                                        layout.grouped layout.location
+                                        layout.grouped layout.location layout.read-back
     Layout.computeAncestors             layout.ancestors
     StructuredGrid.reduce -> cls(*...)  grid.reduce grid.reduce-coords
 
 Bound: see ``B = Bounded(...)`` below.
 """
 import contextlib
+import shutil
 import math
 import os
 import sys
@@ -63,12 +65,29 @@ B = Bounded(
     "third->full core conversion); every state is written, loaded twice, re-saved and loaded again and compared "
     "object by object; kernels: random location lists, layouts of every state, random trees for computeAncestors, "
     "every distinct grid for reduce(); non-trivial = distinct (reactor, chain seed, k, mutation list) / kernel case",
-    bound="quick: 4 reactors x 2 chains x k<=3 (<= 8 states each), 300 location lists, 200 random trees; "
+    bound="quick: 4 reactors x (2 chains, 3-ring hex: 1) x k<=3 (<= 8 states each), 8 edge-value probes, 300 location lists, 200 random trees; "
     "thorough: 9 reactors, small ones x 10 chains x k<=3 (40 states), large ones x 2 chains (8 states), "
     "3000 location lists, 2000 random trees",
 )
 
+# one reported violation per id (first failing input + number of occurrences): common.Bounded keeps 20 at most and
+# one broken clause must not hide the others
+_FIRST = {}
+_rawViolation = B.violation
+
+
+def _violation(vid, what, inp):
+    if vid not in _FIRST:
+        _FIRST[vid] = [what, inp, 0]
+    _FIRST[vid][2] += 1
+
+
+B.violation = _violation
+
 RTOL = 1e-9
+# Component.p.volume / p.area are documented as caches that "are not safe to access directly": getVolume()/getArea()
+# are the observation points (compare_physics)
+LAZY_CACHES = {"volume", "area"}
 MAX_PER_KEY = 1  # one reported example per (id, reactor, key); the rest is counted
 
 
@@ -209,9 +228,14 @@ def grid_fields(g):
         "bounds": [None if b is None else np.asarray(b, dtype=float).tolist() for b in bounds],
         "unitStepLimits": np.asarray(gp.unitStepLimits).tolist(),
         "offset": None if gp.offset is None else np.asarray(gp.offset, dtype=float).tolist(),
-        "geomType": str(gp.geomType),
+        # geometry type by meaning ('hex_corners_up' is documented to collapse to HEX; '' = none), spelling kept apart
+        "geomType": str(g.geomType) if gp.geomType else "",
         "symmetry": str(gp.symmetry),
     }
+
+
+def geom_spelling(g):
+    return str(g.reduce().geomType)
 
 
 def locator_desc(loc):
@@ -247,7 +271,7 @@ def locator_eq(da, db):
     return da[1] == db[1]
 
 
-def compare_node(a, b, D, deepPhysics=True):
+def compare_node(a, b, D):
     """Compare one pair of objects (not their children)."""
     p = path_of(a)
     D.nodes += 1
@@ -267,13 +291,16 @@ def compare_node(a, b, D, deepPhysics=True):
         if not val_eq(fa, fb):
             bad = [k for k in fa if not val_eq(fa[k], fb[k])]
             D.add("grid", tname(a) + "." + ",".join(bad), p, {k: [fa[k], fb[k]] for k in bad})
+        elif geom_spelling(ga) != geom_spelling(gb):
+            SPELLING.add((geom_spelling(ga), geom_spelling(gb)))
         if gb.armiObject is not b:
             D.add("grid", tname(a) + ".armiObject", p, "loaded grid is not anchored to its object")
     # locator
     la, lb = a.spatialLocator, b.spatialLocator
     da, db = locator_desc(la), locator_desc(lb)
+    LOCATOR_KINDS[da[0]] = LOCATOR_KINDS.get(da[0], 0) + 1
     if not locator_eq(da, db):
-        D.add("locator", tname(a) + ":" + da[0] + "->" + db[0], p, [da, db])
+        D.add("locator.coordinate-to-index" if (da[0], db[0]) == ("Coordinate", "Index") else "locator", tname(a) + ":" + da[0] + "->" + db[0], p, [da, db])
     else:
         if la is not None and a.parent is not None and b.parent is not None:
             if (la.grid is not None and la.grid is a.parent.spatialGrid) != (lb.grid is not None and lb.grid is b.parent.spatialGrid):
@@ -298,6 +325,8 @@ def compare_node(a, b, D, deepPhysics=True):
         name = pd.name
         if name in dimNames:
             continue  # compared as dimensions below
+        if name in LAZY_CACHES and isinstance(a, Component):
+            continue  # documented lazy caches (None = recompute): observed through getVolume()/getArea() instead
         hasA, va = param_value(a, name)
         if not hasA:
             continue  # not assigned: outside the quantifier
@@ -321,6 +350,8 @@ def compare_node(a, b, D, deepPhysics=True):
             D.add("param-nan-to-none", key, p, [brief(va), brief(vb)])
         elif vb is None and _isseq(va) and len(va) == 0:
             D.add("param-empty-to-none", key, p, [brief(va), brief(vb)])
+        elif vb is None and _isseq(va) and any(x is None for x in va):
+            D.add("param-array-with-none", key, p, [brief(va), brief(vb)])
         else:
             D.add("param-differs", key, p, [brief(va), brief(vb)])
     # components: material, temperatures, dimensions, number densities
@@ -337,6 +368,9 @@ def compare_node(a, b, D, deepPhysics=True):
             key = tname(a) + "." + dim
             if hasA != hasB:
                 D.add("dimension", key, p, [brief(va), brief(vb)])
+                continue
+            if hasA and va is None and vb is not None:
+                D.add("dimension.none-to-value", key, p, [brief(va), brief(vb)])
                 continue
             if not hasA:
                 continue
@@ -368,9 +402,13 @@ def compare_node(a, b, D, deepPhysics=True):
         if not val_eq(na, nb):
             bad = sorted(set(na) ^ set(nb)) or [k for k in na if not val_eq(na[k], nb[k])]
             D.add("numdens", tname(a), p, {k: [na.get(k), nb.get(k)] for k in bad[:4]})
-    # volume, mass
-    if deepPhysics and isinstance(a, (Component, Block, Assembly)):
-        for what, fn in (("volume", "getVolume"), ("mass", "getMass")):
+
+
+def compare_physics(a, b, D):
+    """Derived queries (they fill armi's lazy caches, so they run after every state comparison is done)."""
+    p = path_of(a)
+    if isinstance(a, (Component, Block)):
+        for what, fn in (("volume", "getVolume"), ("mass", "getMass"), ("area", "getArea")):
             try:
                 xa = getattr(a, fn)()
             except Exception:
@@ -381,7 +419,7 @@ def compare_node(a, b, D, deepPhysics=True):
                 xb = "raises " + repr(e)[:80]
             if not val_eq(xa, xb):
                 D.add(what, tname(a), p, [brief(xa), brief(xb)])
-    if isinstance(a, Block) and deepPhysics:
+    if isinstance(a, Block):
         try:
             nucs = sorted(a.getNuclides())
             xa = a.getNuclideNumberDensities(nucs)
@@ -397,8 +435,8 @@ def compare_node(a, b, D, deepPhysics=True):
                 D.add("numdens", tname(a) + ".homogenized", p, "block nuclides / homogenized number densities differ")
 
 
-def compare_trees(a, b, D=None):
-    """Recursive comparison original ``a`` vs loaded ``b``."""
+def compare_trees(a, b, D=None, pairs=None):
+    """Recursive comparison original ``a`` vs loaded ``b``; ``pairs`` collects the matched objects."""
     D = D if D is not None else Diffs()
     stack = [(a, b)]
     while stack:
@@ -406,6 +444,8 @@ def compare_trees(a, b, D=None):
         compare_node(x, y, D)
         if type(x) is not type(y):
             continue
+        if pairs is not None:
+            pairs.append((x, y))
         cx, cy = list(x), list(y)
         for c in cy:
             if c.parent is not y:
@@ -612,6 +652,30 @@ def kernel_layout(r, tag):
     return lay
 
 
+def kernel_layout_readback(db, r, cyc, node, tag):
+    """The layout read from the file describes the written tree (pre-order rows, counters, parents)."""
+    objs, parentSn = preorder(r)
+    try:
+        lay = db.getLayout(cyc, node)
+        ok = (
+            [str(t) for t in lay.type] == [tname(o) for o in objs]
+            and [str(t) for t in lay.name] == [o.name for o in objs]
+            and [int(x) for x in lay.serialNum] == [int(o.p.serialNum) for o in objs]
+            and [int(x) for x in lay.numChildren] == [len(list(o)) for o in objs]
+        )
+        seen, want = {}, []
+        for o in objs:
+            want.append(seen.get(type(o), 0))
+            seen[type(o)] = want[-1] + 1
+        ok = ok and [int(x) for x in lay.indexInData] == want
+        ok = ok and [None if a is None else int(a) for a in layoutMod.Layout.computeAncestors(lay.serialNum, lay.numChildren)] == parentSn
+        ok = ok and [str(m) for m in lay.material] == [tname(o.material) if isinstance(o, Component) else "" for o in objs]
+    except Exception as e:
+        ok = False
+        tag = list(tag) + ["raised " + repr(e)[:120]]
+    B.check(ok, "layout.read-back", "layout/* read from the file is not the pre-order description of the written tree", {"state": tag})
+
+
 def kernel_random_trees(nTrees):
     rng = B.rng
     for t in range(nTrees):
@@ -648,6 +712,9 @@ def kernel_random_trees(nTrees):
 
 
 _gridsSeen = set()
+_gridClasses = set()
+LOCATOR_KINDS = {}
+SPELLING = set()  # (raw geomType before, after) where only the spelling of the same geometry type changed
 
 
 def kernel_grid_reduce(g, tag):
@@ -657,6 +724,7 @@ def kernel_grid_reduce(g, tag):
     if key in _gridsSeen:
         return
     _gridsSeen.add(key)
+    _gridClasses.add((f["class"], f["symmetry"]))
     B.case(("grid", key), {"kernel": "grid", "class": f["class"], "symmetry": f["symmetry"]} if len(_gridsSeen) < 3 else None)
     inp = {"state": tag, "grid": f}
     try:
@@ -666,7 +734,9 @@ def kernel_grid_reduce(g, tag):
         B.violation("grid.reduce", "rebuilding from reduce() raised " + repr(e)[:200], inp)
         return
     B.check(val_eq(f, grid_fields(g2)) and val_eq(f, grid_fields(g3)), "grid.reduce", "reduce() of the rebuilt grid differs", inp)
-    B.check(g2.isAxialOnly == g.isAxialOnly and str(g2.geomType) == str(g.geomType) and str(g2.symmetry) == str(g.symmetry), "grid.reduce", "metadata changed by rebuild", inp)
+    B.check(g2.isAxialOnly == g.isAxialOnly, "grid.reduce", "isAxialOnly changed by rebuild", inp)
+    if geom_spelling(g2) != geom_spelling(g):
+        SPELLING.add((geom_spelling(g), geom_spelling(g2)))
     cells = [idx for idx, _ in zip(g.items(), range(40))]
     for (idx, _loc) in cells:
         try:
@@ -711,6 +781,10 @@ def candidate_params(objs, kind):
         d = pd.default
         if kind in ("scalar", "none") and type(d) is float:
             out.append(pd.name)
+        elif kind == "int" and type(d) is int:
+            out.append(pd.name)
+        elif kind == "bool" and type(d) is bool:
+            out.append(pd.name)
         elif kind == "str" and type(d) is str:
             out.append(pd.name)
         elif kind == "array" and d is None:
@@ -736,6 +810,13 @@ def mut_scalar(o, r, rng):
                 if rng.random() < 0.8:
                     x.p[name] = rng.choice([rng.uniform(-1e3, 1e3), rng.random() * 1e-30, rng.uniform(1, 9) * 1e200, float(rng.randint(-5, 5))])
             done.append(t.__name__ + "." + name)
+        for kind in ("int", "bool"):
+            names = candidate_params(byType[t], kind)
+            for name in rng.sample(names, min(1, len(names))):
+                for x in byType[t]:
+                    if rng.random() < 0.8:
+                        x.p[name] = rng.randint(-(2**31), 2**31) if kind == "int" else rng.random() < 0.5
+                done.append(t.__name__ + "." + name)
     return done
 
 
@@ -815,7 +896,7 @@ def mut_temperature(o, r, rng):
     n = 0
     for c in rng.sample(comps, min(max(3, len(comps) // 10), len(comps), 60)):
         try:
-            c.setTemperature(float(c.temperatureInC) + rng.uniform(-20.0, 150.0))
+            c.setTemperature(float(c.temperatureInC) + rng.uniform(-20.0, 60.0))
             n += 1
         except Exception:
             pass
@@ -835,6 +916,18 @@ def mut_dimension(o, r, rng):
             n += 1
         except Exception:
             pass
+    return ["n=%d" % n]
+
+
+def mut_freecoord(o, r, rng):
+    """Give components that sit at free coordinates (not on a lattice position) other coordinates."""
+    comps = [c for c in components(r) if type(c.spatialLocator) is grids.CoordinateLocation]
+    if not comps:
+        return None
+    n = 0
+    for c in rng.sample(comps, min(max(2, len(comps) // 20), len(comps), 30)):
+        c.spatialLocator = grids.CoordinateLocation(round(rng.uniform(-3, 3), 3), round(rng.uniform(-3, 3), 3), rng.choice([0.0, 0.5]), c.spatialLocator.grid)
+        n += 1
     return ["n=%d" % n]
 
 
@@ -874,11 +967,9 @@ def mut_discharge(o, r, rng):
         return None
     a = rng.choice(asms)
     r.core.removeAssembly(a, discharge=True)
-    if a.parent is not sfp:
-        if a.parent is not None:
-            return ["removed:" + a.name]
-        sfp.add(a)
-    return [a.name]
+    if a.parent is None and sfp.spatialGrid is not None:
+        sfp.add(a)  # the case does not track discharged assemblies: put it into the pool by hand
+    return [a.name + ("@sfp" if a.parent is sfp else "@gone")]
 
 
 def mut_fullcore(o, r, rng):
@@ -891,9 +982,9 @@ def mut_fullcore(o, r, rng):
 MUTATIONS = {
     "scalar": mut_scalar, "array": mut_array, "str": mut_str, "none": mut_none, "composition": mut_composition,
     "temperature": mut_temperature, "dimension": mut_dimension, "swap": mut_swap, "rotate": mut_rotate,
-    "discharge": mut_discharge, "fullcore": mut_fullcore,
+    "discharge": mut_discharge, "fullcore": mut_fullcore, "freecoord": mut_freecoord,
 }
-WEIGHTS = {"scalar": 3, "array": 3, "str": 2, "none": 2, "composition": 2, "temperature": 2, "dimension": 1, "swap": 2, "rotate": 2, "discharge": 1, "fullcore": 1}
+WEIGHTS = {"scalar": 3, "array": 3, "str": 2, "none": 2, "composition": 2, "temperature": 2, "dimension": 1, "swap": 2, "rotate": 2, "discharge": 1, "fullcore": 1, "freecoord": 1}
 
 
 # ----------------------------------------------------------------------------------------------------------------
@@ -922,20 +1013,74 @@ REACTORS = {
 QUICK = ["smallest-hex-full", "godiva-thetaRZ", "c5g7-cartesian-pins", "hex-third-3rings"]
 
 
+AGG = {}  # (violation id, clause, key) -> {"states": n, "objects": n, "first": {...}}
+
+
 def report(D, clausePrefix, tag, what):
-    """Turn collected differences into violations: one per (clause, key), id = prefix + clause."""
+    """Collect differences; one violation per (id, clause, key) over the whole run (first state + counts)."""
     for (clause, key), (count, first) in D.d.items():
-        vid = clausePrefix if clausePrefix in ("db.double-load", "db.resave") else "db." + clause
-        B.violation(vid, what + ": " + clause + " [" + key + "]", {"state": tag, "clause": clause, "key": key, "count": count, "first": first})
+        if clausePrefix in ("db.double-load", "db.resave"):
+            vid = clausePrefix + "." + clause.split(".")[0]  # e.g. db.resave.locator, db.double-load.param-differs
+        elif clause == "param-differs":
+            vid = "db.param-differs." + key.split(".", 1)[1]  # one id per parameter name
+        else:
+            vid = "db." + clause
+        a = AGG.setdefault(vid, {"what": what + ": " + clause, "keys": {}, "objects": 0, "state": tag, "key": key, "first": first, "statesSeen": set()})
+        a["statesSeen"].add(repr(tag))
+        a["objects"] += count
+        a["keys"][clause + ":" + key] = a["keys"].get(clause + ":" + key, 0) + count
 
 
-def roundtrip_state(o, r, tag, workdir, counters):
-    """Write r, load twice, re-save the loaded one, load again; compare everything."""
+def flush_report():
+    """One violation per id: first failing state (replayable) + which classes/parameters and how many objects."""
+    _flush_whole_state()
+    for vid, (what, inp, n) in _FIRST.items():
+        if isinstance(inp, dict):
+            inp = dict(inp, occurrences=n, id=vid, seed=B.seed, tier=B.tier)
+        _rawViolation(vid, what, inp)
+
+
+def _flush_whole_state():
+    for vid, a in AGG.items():
+        keys = dict(sorted(a["keys"].items(), key=lambda kv: -kv[1])[:12])
+        B.violation(vid, a["what"], {"state": a["state"], "key": a["key"], "first": a["first"], "states": len(a["statesSeen"]), "objects": a["objects"], "keys": keys})
+
+
+def physics(pairs, tag):
+    D = Diffs()
+    for x, y in pairs:
+        compare_physics(x, y, D)
+    report(D, "db", tag, "original vs loaded")
+
+
+def physically_valid(r):
+    """The property is about reactor states: components must not overlap (derived shapes have a volume)."""
+    try:
+        for c in r.iterChildren(deep=True):
+            if isinstance(c, Component):
+                c.getVolume()
+        return True
+    except Exception:
+        return False
+
+
+def roundtrip_state(o, r, tag, workdir, counters, probe=None):
+    """Write r, load twice, re-save the loaded one, load again; compare everything.
+
+    ``probe``: name of an edge-value probe - single load, and write/load failures get the probe's own id.
+    """
+    sfx = "." + probe if probe else ""
     r.p.cycle, r.p.timeNode = int(r.p.cycle), int(r.p.timeNode)
     cyc, node = r.p.cycle, r.p.timeNode
-    f1 = "s%d.h5" % counters["files"]
-    f2 = "s%d_resave.h5" % counters["files"]
+    # the database is named after the case (DatabaseInterface default), each file in its own directory, so that
+    # "the same settings" (case title included) are what the load sees
+    d1 = os.path.join(workdir, "w%d" % counters["files"])
+    d2 = os.path.join(workdir, "w%d_resave" % counters["files"])
+    os.makedirs(d1)
+    os.makedirs(d2)
+    f1 = f2 = o.cs.caseTitle + ".h5"
     counters["files"] += 1
+    os.chdir(d1)
     # kernels on this very state
     kernel_layout(r, tag)
     for x in [r] + list(r.iterChildren(deep=True)):
@@ -950,26 +1095,35 @@ def roundtrip_state(o, r, tag, workdir, counters):
         finally:
             db.close(True)
     except Exception as e:
-        B.violation("db.write-error", "writeToDB raised " + repr(e)[:300], {"state": tag, "trace": traceback.format_exc()[-600:]})
+        B.violation("db.write-error" + sfx, "writeToDB raised " + repr(e)[:300], {"state": tag, "trace": traceback.format_exc()[-600:]})
         return
     try:
         with Database(f1, "r") as db:
+            kernel_layout_readback(db, r, cyc, node, tag)
             r2 = db.load(cyc, node)
-            r3 = db.load(cyc, node)
+            r3 = None if probe else db.load(cyc, node)
     except Exception as e:
-        B.violation("db.load-error", "load raised " + repr(e)[:300], {"state": tag, "trace": traceback.format_exc()[-600:]})
+        B.violation("db.load-error" + sfx, "load raised " + repr(e)[:300], {"state": tag, "trace": traceback.format_exc()[-600:]})
         return
     runLog.setVerbosity("error")
-    D = compare_trees(r, r2)
+    pairs = []
+    D = compare_trees(r, r2, pairs=pairs)
     counters["nodes"] += D.nodes
     counters["params"] += D.params
     counters["nontrivialParams"] += D.nontrivialParams
     report(D, "db", tag, "original vs loaded")
+    if probe:
+        physics(pairs, tag)
+        os.chdir(workdir)
+        shutil.rmtree(d1, ignore_errors=True)
+        shutil.rmtree(d2, ignore_errors=True)
+        return
     D2 = compare_trees(r2, r3)
     report(D2, "db.double-load", tag, "two loads of the same snapshot differ")
     # save the loaded reactor to a new file and load again
     try:
         cs2 = o.cs
+        os.chdir(d2)
         dbi = DatabaseInterface(r2, cs2)
         dbi.initDB(fName=f2)
         db = dbi.database
@@ -980,14 +1134,114 @@ def roundtrip_state(o, r, tag, workdir, counters):
         with Database(f2, "r") as db:
             r4 = db.load(cyc, node)
     except Exception as e:
-        B.violation("db.resave", "saving/loading the loaded reactor raised " + repr(e)[:300], {"state": tag, "trace": traceback.format_exc()[-600:]})
+        B.violation("db.resave.error", "saving/loading the loaded reactor raised " + repr(e)[:300], {"state": tag, "trace": traceback.format_exc()[-600:]})
+        physics(pairs, tag)
         return
     runLog.setVerbosity("error")
     D3 = compare_trees(r2, r4)
     report(D3, "db.resave", tag, "loaded vs (loaded -> saved -> loaded)")
-    for f in (f1, f2):
-        with contextlib.suppress(OSError):
-            os.remove(f)
+    physics(pairs, tag)
+    os.chdir(workdir)
+    for d in (d1, d2):
+        shutil.rmtree(d, ignore_errors=True)
+
+
+# ----------------------------------------------------------------------------------------------------------------
+# edge-value probes: one deterministic assignment each, on a column with several objects (blocks of the theta-RZ case)
+# ----------------------------------------------------------------------------------------------------------------
+def _pick(blocks, kind):
+    names = candidate_params(blocks, kind)
+    if not names:
+        raise LookupError(kind)
+    return names[0]
+
+
+def probe_all_none(blocks):
+    n = _pick(blocks, "none")
+    for b in blocks:
+        b.p[n] = None
+    return n
+
+
+def probe_nan_and_none(blocks):
+    n = _pick(blocks, "none")
+    for i, b in enumerate(blocks):
+        b.p[n] = [float("nan"), None, 1.5][i % 3]
+    return n
+
+
+def probe_nan_only(blocks):
+    n = _pick(blocks, "scalar")
+    for i, b in enumerate(blocks):
+        b.p[n] = [float("nan"), float("inf"), -0.0, 1.5][i % 4]
+    return n
+
+
+def probe_jagged_with_empty(blocks):
+    n = _pick(blocks, "array")
+    for i, b in enumerate(blocks):
+        b.p[n] = [np.array([]), np.array([1.0, 2.0]), np.array([3.0])][i % 3]
+    return n
+
+
+def probe_str_non_ascii(blocks):
+    n = _pick(blocks, "str")
+    for b in blocks:
+        b.p[n] = "f\u00fcel"
+    return n
+
+
+def probe_str_column_with_none(blocks):
+    n = _pick(blocks, "str")
+    for i, b in enumerate(blocks):
+        b.p[n] = None if i % 2 else "x"
+    return n
+
+
+def probe_array_with_none_element(blocks):
+    n = _pick(blocks, "array")
+    for i, b in enumerate(blocks):
+        b.p[n] = np.array([1.0, None, 3.0], dtype=object) if i % 2 else np.array([1.0, 2.0, 3.0])
+    return n
+
+
+def probe_plain_shapes(blocks):
+    """Shapes that must simply survive: int, bool, int/float mix, tuple, 2-D jagged, strings with blanks / empty."""
+    ni, nb, ns = _pick(blocks, "int"), _pick(blocks, "bool"), _pick(blocks, "str")
+    na = candidate_params(blocks, "array")[:2]
+    nf = candidate_params(blocks, "scalar")[:1]
+    for i, b in enumerate(blocks):
+        b.p[ni] = i - 3
+        b.p[nb] = bool(i % 2)
+        b.p[ns] = ["", " lead", "trail ", "a b"][i % 4]
+        b.p[na[0]] = np.ones((2, 1 + i % 3)) * i
+        b.p[na[1]] = (1.0 * i, 2.0)
+        b.p[nf[0]] = i if i % 2 else i + 0.5
+    return [ni, nb, ns] + na + nf
+
+
+PROBES = {
+    "all-none-column": probe_all_none, "nan-and-none-column": probe_nan_and_none, "nan-inf-negzero": probe_nan_only,
+    "jagged-with-empty": probe_jagged_with_empty, "str-non-ascii": probe_str_non_ascii,
+    "str-column-with-none": probe_str_column_with_none, "array-with-none-element": probe_array_with_none_element,
+    "plain-shapes": probe_plain_shapes,
+}
+PROBE_REACTOR = "godiva-thetaRZ"
+
+
+def run_probe(pname, workdir, counters):
+    o, r = REACTORS[PROBE_REACTOR][0]()
+    blocks = [b for b in preorder(r)[0] if isinstance(b, Block)]
+    tag = ["probe", pname, 0, [PROBE_REACTOR]]
+    try:
+        what = PROBES[pname](blocks)
+    except LookupError:
+        counters["mutations_skipped"] += 1
+        return
+    B.case(("probe", pname), {"probe": pname, "reactor": PROBE_REACTOR, "parameter": what})
+    roundtrip_state(o, r, tag, workdir, counters, probe=pname)
+    counters["states"] += 1
+    counters["probes"] = counters.get("probes", 0) + 1
 
 
 def run_chain(name, chainSeed, kmax, workdir, counters, onlyK=None):
@@ -997,9 +1251,13 @@ def run_chain(name, chainSeed, kmax, workdir, counters, onlyK=None):
     applied = []
     for k in range(kmax + 1):
         if k > 0:
+            # stratified: the slot (reactor, chain, k) fixes the first kind tried, so that a tier covers every kind;
+            # every second slot and every fallback is a weighted random draw
+            kinds = sorted(MUTATIONS)
+            slot = list(REACTORS).index(name) * 5 + chainSeed * 3 + (k - 1)
             names = [m for m in MUTATIONS for _ in range(WEIGHTS[m])]
             for _try in range(8):
-                m = rng.choice(names)
+                m = kinds[slot % len(kinds)] if _try == 0 and (chainSeed + k) % 3 != 0 else rng.choice(names)
                 try:
                     res = MUTATIONS[m](o, r, rng)
                 except NotImplementedError:
@@ -1013,6 +1271,10 @@ def run_chain(name, chainSeed, kmax, workdir, counters, onlyK=None):
             counters["mutations"][m] = counters["mutations"].get(m, 0) + 1
         if onlyK is not None and k != onlyK:
             continue
+        if k > 0 and not physically_valid(r):
+            # the mutation made components overlap (negative derived volume): not a reactor state, stop this chain
+            counters["states_skipped_invalid"] += kmax + 1 - k
+            break
         tag = [name, chainSeed, k, list(applied)]
         B.case((name, chainSeed, k, tuple(applied)), {"reactor": name, "chain": chainSeed, "k": k, "mutations": list(applied)})
         t0 = time.time()
@@ -1022,29 +1284,46 @@ def run_chain(name, chainSeed, kmax, workdir, counters, onlyK=None):
 
 
 def main():
-    counters = {"files": 0, "nodes": 0, "params": 0, "nontrivialParams": 0, "states": 0, "mutations": {}, "mutations_skipped": 0, "time_by_reactor": {}}
+    counters = {"files": 0, "nodes": 0, "params": 0, "nontrivialParams": 0, "states": 0, "mutations": {}, "mutations_skipped": 0, "time_by_reactor": {}, "states_skipped_invalid": 0}
     cwd = os.getcwd()
     with tempfile.TemporaryDirectory(prefix="c04_") as workdir:
         os.chdir(workdir)
         try:
             if B.replay is not None:
-                rp = B.replay
-                st = rp.get("state", rp)
-                name, chainSeed, k = st[0], st[1], st[2]
-                run_chain(name, chainSeed, max(k, 0), workdir, counters, onlyK=k)
+                # input of a recorded violation: {"state": [reactor|"probe", chain|probe name, k, ...], "id", "seed", "tier"}
+                rp = B.replay if isinstance(B.replay, dict) else {"state": B.replay}
+                if "seed" in rp:
+                    B.seed = int(rp["seed"])
+                    B.rng = random.Random(B.seed)
+                B.tier = rp.get("tier", B.tier)
+                st = rp.get("state")
+                if st and st[0] == "probe":
+                    run_probe(st[1], workdir, counters)
+                elif st:
+                    run_chain(st[0], st[1], max(st[2], 0), workdir, counters, onlyK=st[2])
+                else:  # a kernel case: the kernels are cheap, run them again as recorded
+                    kernel_locations(3000 if B.thorough() else 300)
+                    kernel_random_trees(2000 if B.thorough() else 200)
                 os.chdir(cwd)
+                flush_report()
                 sys.stdout.flush()
                 os.dup2(_REAL_STDOUT, 1)
                 import json
 
-                print(json.dumps({"result": "fail" if B.violations else "pass", "violations": B.violations}, default=str))
+                found = [v for v in B.violations if rp.get("id") in (None, v["id"])]
+                print(json.dumps({"result": "fail" if found else "pass", "violations": found}, default=str))
                 return
             kernel_locations(3000 if B.thorough() else 300)
             kernel_random_trees(2000 if B.thorough() else 200)
             if B.thorough():
                 plan = [(n, 10 if small else 2) for n, (_l, small) in REACTORS.items()]
             else:
-                plan = [(n, 2) for n in QUICK]
+                plan = [(n, 1 if n == "hex-third-3rings" else 2) for n in QUICK]
+            for pname in PROBES:
+                try:
+                    run_probe(pname, workdir, counters)
+                except Exception as e:
+                    B.violation("harness.error", "probe raised " + repr(e)[:300], {"state": ["probe", pname], "trace": traceback.format_exc()[-800:]})
             for name, chains in plan:
                 for chainSeed in range(chains):
                     try:
@@ -1054,13 +1333,19 @@ def main():
         finally:
             os.chdir(cwd)
     B.extra["states_roundtripped"] = counters["states"]
+    B.extra["edge_value_probes"] = counters.get("probes", 0)
     B.extra["objects_compared"] = counters["nodes"]
     B.extra["parameter_values_compared"] = counters["params"]
     B.extra["parameter_values_nondefault"] = counters["nontrivialParams"]
     B.extra["mutations_applied"] = counters["mutations"]
     B.extra["mutations_skipped_not_applicable"] = counters["mutations_skipped"]
+    B.extra["states_skipped_overlapping_components"] = counters["states_skipped_invalid"]
     B.extra["distinct_grids_rebuilt"] = len(_gridsSeen)
+    B.extra["grid_classes_and_symmetries"] = sorted(_gridClasses)
+    B.extra["locator_kinds_compared"] = LOCATOR_KINDS
     B.extra["seconds_by_reactor"] = counters["time_by_reactor"]
+    B.extra["geomType_spelling_normalised_by_rebuild"] = sorted(SPELLING)
+    flush_report()
     sys.stdout.flush()
     os.dup2(_REAL_STDOUT, 1)
     B.finish(exhaustive=False)
